@@ -87,6 +87,7 @@ pub fn build(i: &Input) -> Vec<u8> {
     b.extend_from_slice(&[0x01, 0x01, 0x63, 0x00, 0x00, 0x00]);
     if i.fix {
         fix_crcs(&mut b);
+        fix_crcs_scan(&mut b);
     }
     b
 }
